@@ -13,6 +13,7 @@
     [WrappedMessage::from_bytes] after CBOR decoding:       [from_wire]
       version check, then [verify()]
     what a subscription hands out for one channel item      [accept]: [Undecodable] bytes -> nothing
+    what it hands out for a sequence of channel items       [sub_run] (stateless: [accept] per item)
     [WrappedMessage::new(body, ts, key)]                    [new_message]
     [EphemeralStreamPublisher::publish]: lock, increment    [publish] / [pub_run] over
       the stored hybrid timestamp, wrap, send               [Model.Timestamp.increment]
@@ -64,6 +65,29 @@ Section Scheme.
     | Undecodable => None
     | Decoded w => match from_wire w with inl m => Some m | inr _ => None end
     end.
+
+  (** A subscription over a whole sequence of incoming items
+      ([EphemeralStreamSubscription::poll_next], item after item).  The subscription keeps no
+      state between two items (no cache of verified signatures, no de-duplication): each item
+      goes through [from_bytes] on its own, so an exact duplicate of an authentic message is
+      yielded again and a tampered copy is rejected wherever it stands in the sequence. *)
+  Fixpoint sub_run (l : list incoming) : list wrapped :=
+    match l with
+    | [] => []
+    | i :: r => match accept i with Some m => m :: sub_run r | None => sub_run r end
+    end.
+
+  (** Specification side (no [verify], no [accept]): a message is authentic when it has the
+      supported version and carries the signature of its claimed author over exactly its
+      fields; [auth_filter l ys]: [ys] are the authentic messages of [l], in order. *)
+  Definition authentic (w : wrapped) : Prop :=
+    ver (wf w) = MESSAGE_VERSION /\ wsig w = sign (sk_of (author (wf w))) (enc (wf w)).
+
+  Inductive auth_filter : list incoming -> list wrapped -> Prop :=
+  | af_nil : auth_filter [] []
+  | af_keep w l ys : authentic w -> auth_filter l ys -> auth_filter (Decoded w :: l) (w :: ys)
+  | af_drop w l ys : ~ authentic w -> auth_filter l ys -> auth_filter (Decoded w :: l) ys
+  | af_skip l ys : auth_filter l ys -> auth_filter (Undecodable :: l) ys.
 
   Definition mk_fields (pk : key) (ts : hts) (b : N) : fields :=
     {| ver := MESSAGE_VERSION; author := pk; time := fst ts; logical := snd ts; body := b |}.
@@ -120,4 +144,5 @@ Module Sym.
   Definition accept := accept key sigT bytes verify enc.
   Definition new_message := new_message key skey sigT bytes sk_of sign enc.
   Definition pub_run := pub_run key skey sigT bytes sk_of sign enc.
+  Definition sub_run := sub_run key sigT bytes verify enc.
 End Sym.
